@@ -12,6 +12,7 @@ import (
 func init() {
 	f := "internal/3rdparty/slip/slip.go"
 	register(&Property{ID: "C25", Run: runC25, Mutants: []Mutant{
+		{Name: "the mux reader assembles packets in a buffer it keeps between calls", File: "internal/3rdparty/slip/slipmux.go", Old: "type SlipMuxReader struct {\n\tr *Reader\n}", New: "type SlipMuxReader struct {\n\tr   *Reader\n\tbuf bytes.Buffer\n}", Old2: "\tbuf := bytes.Buffer{}\n", New2: "\tbuf := &s.buf\n\tbuf.Reset()\n", Expect: "returned-payload-fresh"},
 		{Name: "IPv4 frame range widened to the whole 0x4_ nibble", File: "internal/3rdparty/slip/slipmux.go", Old: "return frame >= FRAME_IPV4_START && frame <= FRAME_IPV4_END", New: "return frame>>4 == FRAME_IPV4_START>>4", Expect: "mux-ip-frame-range :: IsIpv4Frame"},
 		{Name: "IPv6 frame range off by one", File: "internal/3rdparty/slip/slipmux.go", Old: "return frame >= FRAME_IPV6_START && frame <= FRAME_IPV6_END", New: "return frame > FRAME_IPV6_START && frame <= FRAME_IPV6_END", Expect: "mux-ip-frame-range :: IsIpv6Frame"},
 		{Name: "ESC constant wrong", File: f, Old: "ESC     = 0333", New: "ESC     = 0334", Expect: "rfc1055-constants"},
@@ -109,6 +110,7 @@ func runC25(c *Ctx) {
 		}
 	}
 	c25Extra(c, p, pk)
+	c25ReturnedPayloadFresh(c, p, pk)
 	const rC, rT, rD, rB, rR, rM = "rfc1055-constants", "escape-tables-inverse", "packet-delimiters", "one-byte-reads", "read-result-tested", "mux-frame-symmetry"
 	vals := map[string]int64{}
 	for name, want := range map[string]int64{"END": 0xC0, "ESC": 0xDB, "ESC_END": 0xDC, "ESC_ESC": 0xDD} {
